@@ -102,6 +102,7 @@ pub fn writer_op<W: embedded_io::Write<Error = E>, E: embedded_io::Error>(
     w: &mut Writer<'_, W, E>,
     kind: &str,
     arg: &str,
+    mkerr: fn() -> E,
 ) -> Result<(), E> {
     match kind {
         "s" => w.write_str(as_str(&unhex(arg))),
@@ -112,9 +113,8 @@ pub fn writer_op<W: embedded_io::Write<Error = E>, E: embedded_io::Error>(
         }
         "f" => {
             let t = unhex(arg);
-            // core::fmt::Write loses the error value; a failure is reported by the next sink call
-            let _ = core::fmt::Write::write_fmt(w, format_args!("{}", as_str(&t)));
-            Ok(())
+            // core::fmt::Write loses the error value; the application reports it as a sink error
+            core::fmt::Write::write_fmt(w, format_args!("{}", as_str(&t))).map_err(|_| mkerr())
         }
         "t" => w.write_title(as_str(&unhex(arg))),
         "e" => {
@@ -308,7 +308,7 @@ where
                 let wops: Vec<&str> = arg.split(',').filter(|s| !s.is_empty()).collect();
                 let r = cli.write(|w| {
                     for wop in &wops {
-                        writer_op(w, &wop[..1], &wop[1..])?;
+                        writer_op(w, &wop[..1], &wop[1..], || SinkErr)?;
                     }
                     Ok(())
                 });
